@@ -62,6 +62,8 @@ def main():
         for f in demo_files:
             names += re.findall(r"^func (Test\w+)\(", open(os.path.join(src, f)).read(), re.M)
         demo_cmd = f"go test -tags verif -vet=off -count=1 -run '^({'|'.join(names)})$' {pkg}"
+        if "test.root" in json.dumps(meta):
+            demo_cmd += " -test.root"
         rc, o = sh(demo_cmd, cwd=mod)
         log["demo_pristine"] = "pass" if rc == 0 else "FAIL"
         log["demo_cmd"] = f"(cd <module {os.path.relpath(mod, wt)}>) {demo_cmd}"
